@@ -305,6 +305,9 @@ func (d *driver) exec(o *op) {
 		case err := <-ch: // Log failed before reaching Put
 			impl["err"] = errClass(err)
 			delete(d.done, o.Item)
+			d.obs.mu.Lock()
+			d.obs.park = false
+			d.obs.mu.Unlock()
 		}
 	case "finish":
 		id := d.idOf[o.Item]
@@ -494,12 +497,13 @@ func genCase(r *hx.Rng, plain bool, maxOps int) *kase {
 	}
 	for len(k.Ops) < nops {
 		c := r.Intn(100)
+		noReg := len(g.regList()) == 0 // nothing registered: every Log is rejected (covered by "reject")
 		switch {
-		case c < 30:
+		case c < 30 && !noReg:
 			it := g.item()
 			k.Ops = append(k.Ops, &op{Op: "log", Typ: g.pickReg(), Item: it})
 			g.finished, g.live = append(g.finished, it), append(g.live, it)
-		case c < 40 && !plain:
+		case c < 40 && !plain && !noReg:
 			it := g.item()
 			k.Ops = append(k.Ops, &op{Op: "begin", Typ: g.pickReg(), Item: it})
 			g.inflight = append(g.inflight, it)
@@ -508,7 +512,7 @@ func genCase(r *hx.Rng, plain bool, maxOps int) *kase {
 			g.inflight = remove(g.inflight, it)
 			k.Ops = append(k.Ops, &op{Op: "finish", Item: it})
 			g.finished, g.live = append(g.finished, it), append(g.live, it)
-		case c < 55 && !plain:
+		case c < 55 && !plain && !noReg:
 			o := &op{Op: "burst"}
 			for i, n := 0, r.Range(2, 6); i < n; i++ {
 				it := g.item()
@@ -537,13 +541,16 @@ func genCase(r *hx.Rng, plain bool, maxOps int) *kase {
 			g.reg[t] = true
 			k.Ops = append(k.Ops, &op{Op: "register", Typ: t})
 		case c < 86:
-			if r.Chance(50) {
-				k.Ops = append(k.Ops, &op{Op: "reject", Typ: "no-such-type", Item: g.item()})
+			if r.Chance(50) || noReg {
+				k.Ops = append(k.Ops, &op{Op: "reject", Typ: hx.Pick(r, "no-such-type", "", allTypes[r.Intn(len(allTypes))]+"x"), Item: g.item()})
 			} else if t := g.pickReg(); t != "" {
 				k.Ops = append(k.Ops, &op{Op: "reject", Typ: t, Item: "!enc" + g.item()})
 			}
 		case c < 88 && !plain:
 			it := g.item()
+			if noReg {
+				continue
+			}
 			key := hx.Pick(r, "/events/zz", "/events/", "/events/00000000000000000000000000000000ff", "/events/000000000000000A", "/event", "/events0", "/eventz/0000000000000001", "/events/00000000000000a0")
 			k.Ops = append(k.Ops, &op{Op: "inject", Key: key, Val: hx.Pick(r, "event", "event", "garbage"), Typ: g.pickReg(), Item: it})
 			g.live = append(g.live, it)
